@@ -324,3 +324,5 @@ func isCmpOp(op token.Token) bool {
 	}
 	return false
 }
+
+func token_EQL() token.Token { return token.EQL }
